@@ -39,7 +39,9 @@ def notations():
 def arg_pool(n):
     from . import bridge
     P = bridge.P
-    return [P.EVar(0), P.EVar(1), P.MetaVar(0), P.Symbol('s'), P.Exists(0, P.EVar(1))][:n]
+    # neighbours differ only in their CLASS (same fields): x1 / X1, exists / mu -- anything keyed on field values confuses them
+    return [P.EVar(0), P.EVar(1), P.SVar(1), P.MetaVar(0), P.Exists(0, P.EVar(1)), P.Mu(0, P.EVar(1)), P.Symbol('s'),
+            P.App(P.EVar(0), P.EVar(1)), P.Implies(P.EVar(0), P.EVar(1))][:n]
 
 
 def notation_chunk(args):
@@ -52,7 +54,7 @@ def notation_chunk(args):
     assert len(set(rend)) == len(rend)
     out = {'evals': 0, 'distinct_pairs': 0, 'viol': []}
     for n in nots:
-        pl = pool if n.arity <= 3 else pool[:3]
+        pl = pool if n.arity <= 2 else (pool[:4] if n.arity == 3 else pool[:3])
         tuples = list(itertools.product(range(len(pl)), repeat=n.arity))
         apps = []
         for t in tuples:
@@ -268,7 +270,7 @@ def replay(path: str) -> int:
     if 'notation' in sig:
         for gi, (name, opts, nots) in enumerate(notations()):
             if any(n.label == sig['notation'] for n in nots):
-                out = notation_chunk((gi, 5))
+                out = notation_chunk((gi, 9))
                 bad = [w for s, w in out['viol'] if s['notation'] == sig['notation']]
                 for w in bad[:3]:
                     print('still failing:', w)
@@ -284,7 +286,7 @@ def main(argv=None) -> int:
     thorough = chk.tier == 'thorough'
     agg: dict = {}
     ng = len(notations())
-    for out in par.pmap(notation_chunk, [(g, 5 if thorough else 4) for g in range(ng)]):
+    for out in par.pmap(notation_chunk, [(g, 9 if thorough else 7) for g in range(ng)]):
         for k, v in out.items():
             if k == 'viol':
                 for sig, what in v:
@@ -293,6 +295,7 @@ def main(argv=None) -> int:
                 agg['not_' + k] = agg.get('not_' + k, 0) + v
     from . import modgraph, c02
     specs = [('graph',) + sp for sp in modgraph.family(4 if thorough else 3)]
+    specs += [('graph',) + sp for sp in modgraph.twin_family() if sp[0] == 'single']
     specs += [('shipped', m, c) for m, c in c02.SHIPPED]
     prim = c02.level0(4)
     exprs = prim + c02.successors(prim, prim, 6 if thorough else 4, 3 if thorough else 2)
@@ -312,7 +315,7 @@ def main(argv=None) -> int:
                     'every (module, optimise setting, phase) file pair')
     chk.set('exhaustive', True)
     chk.set('detail', agg)
-    chk.set('bounds', {'notation_groups': ng, 'argument_pool': 5 if thorough else 4, 'module_specs': len(specs)})
+    chk.set('bounds', {'notation_groups': ng, 'argument_pool': 9 if thorough else 7, 'module_specs': len(specs)})
     chk.sample({'notation_pair': 'equiv(x0, x1) vs equiv(x1, x0)'})
     chk.sample({'module_spec': [str(x) for x in specs[len(specs) // 3]]})
     chk.assume('instruction decoder and listing parser are in mc/c19.py; Instantiate ids are listed in key order by the pretty printer and in reverse key order in the binary')
